@@ -126,21 +126,31 @@ def Value.toStr : Value → Str
   | .bool true => "true".toList
   | .bool false => "false".toList
 
-/-- the XML character data of the `<value/>` children `QXmppDataForm::toXml` writes for the field (and which
-`QXmppDataForm::parse` turns back into the same variant): a single value is written unless the string is NULL — an empty
-non-null one is written as `<value/>` (repo commit 06b3045) —, a boolean writes `1` / `0`, a list one element per entry -/
-def Value.wire : Value → List Str
+/-- XML 1.0 §2.11, applied by every conforming parser to element text: `CR LF` and a lone `CR` are read as `LF`.
+(`QXmlStreamWriter` writes a CR in element text literally; in attribute values it writes `&#13;`, which is preserved.) -/
+def xmlLineEnds : Str → Str
+  | '\r' :: '\n' :: r => '\n' :: xmlLineEnds r
+  | '\r' :: r => '\n' :: xmlLineEnds r
+  | c :: r => c :: xmlLineEnds r
+  | [] => []
+
+/-- the values `QXmppDataForm::toXml` writes for the field, as opaque strings: one `<value/>` per list element whose text
+is the element; a single value unless the string is NULL (an empty non-null one is written as `<value/>`); a boolean
+`1` / `0` -/
+def Value.hashed : Value → List Str
   | .text s => [s]
   | .null => []
   | .list vs => vs
   | .bool true => [['1']]
   | .bool false => [['0']]
 
-/-- the values `verificationString()` takes for a field: by field type exactly the `<value/>` elements `toXml` writes —
-boolean `1`/`0`, multi-valued types the list, every other type the string unless it is null (repo commits "caps hash
-covers exactly the values written for extended info form fields" and "caps hash includes an empty but non-null form
-value, as the form is written") — sorted with `octetLessThan` -/
-def Value.codeVals (v : Value) : List Str := isort lt8 v.wire
+/-- the wire view a peer gets: every `<value/>` element is one value, its text the value as read by a conforming XML
+parser, i.e. with line ends normalised.  Without a CR in the values this is `Value.hashed`. -/
+def Value.wire (v : Value) : List Str := v.hashed.map xmlLineEnds
+
+/-- the values `verificationString()` takes for a field: by field type exactly the strings `toXml` writes (`Value.hashed`),
+sorted with `octetLessThan` -/
+def Value.codeVals (v : Value) : List Str := isort lt8 v.hashed
 
 /-- `key + '<'`, then every value followed by `'<'` -/
 def fieldStrCode (f : Field) : Str :=
@@ -296,7 +306,7 @@ inductive ClientOp
 inductive ClientOut (β : Type)
   /-- an emitted `<presence/>`: `some (node, ver)` = with `<c node=… ver=… hash='sha-1'/>`; `none` = without a caps element -/
   | presence (caps : Option (Str × β))
-  /-- the `ver` of the answered info set, `none` = item-not-found -/
+  /-- the XEP-0115 hash of the answered info set as a peer computes it from the wire, `none` = item-not-found -/
   | answer (ver : Option β)
   deriving DecidableEq, Repr
 
@@ -305,7 +315,7 @@ def clientStep {β : Type} (H : Str → β) (s : ClientSt β) : ClientOp → Cli
   | .setClientPresence _ => ({ s with stored := freshCaps H s.cfg }, [.presence (freshCaps H s.cfg)])
   | .connectToServer _ => ({ s with stored := freshCaps H s.cfg }, [])
   | .emitStored _ => ({ s with stored := freshCaps H s.cfg }, [.presence (freshCaps H s.cfg)])
-  | .query n => (s, [.answer ((answeredInfo s.cfg n).map (ver H))])
+  | .query n => (s, [.answer ((answeredInfo s.cfg n).map (fun i => H (verStringSpec i)))])
 
 /-- run a history; every output is recorded together with the state right after the step that produced it -/
 def clientRun {β : Type} (H : Str → β) (s : ClientSt β) : List ClientOp → ClientSt β × List (ClientSt β × ClientOut β)
